@@ -816,4 +816,65 @@ frame whose `len()` (14) exceeded the declared 12. -/
 example : errIs (Frame.unpack [0xC0, 0, 0, 0, 0, 0x0B, 0x08, 0x00, 0xAA, 0xBB, 0xCC, 0xDD] .fixed ⟨.fixed, 12, none, none⟩)
     (.uslp .invalidLen) = true := by decide +kernel
 
+/-! ## injectivity of the header encodings (corollaries of the round trips) -/
+
+/-- truncated header: members of the domain with the same four octets are the same header -/
+theorem C17_thdr_octets_injective (h k : TruncatedHeader) (wh : WFTHdr h) (wk : WFTHdr k)
+    (he : Spec.thdrOctets h = Spec.thdrOctets k) : h = k := by
+  have r1 := C17_thdr_roundtrip h wh []
+  have r2 := C17_thdr_roundtrip k wk []
+  rw [he, r2] at r1
+  cases r1; rfl
+
+/-- the same for `pack()` itself, as an iff -/
+theorem C17_thdr_pack_injective (h k : TruncatedHeader) (wh : WFTHdr h) (wk : WFTHdr k) :
+    h.pack = k.pack ↔ h = k := by
+  refine ⟨fun he => ?_, fun he => by rw [he]⟩
+  rw [(C17_thdr_exact h wh).1, (C17_thdr_exact k wk).1] at he
+  exact C17_thdr_octets_injective h k wh wk (Except.ok.inj he)
+
+private theorem hdrOctets_norm (h : PrimaryHeader) : Spec.hdrOctets (normHdr h) = Spec.hdrOctets h := by
+  unfold normHdr
+  split
+  · next h0 => simp [Spec.hdrOctets, h0, beBytes]
+  · rfl
+
+/-- primary header: injective up to the normalisation of the round trip (`normHdr`: with a VCF count
+    length of 0 the count carries no octets, so `none` and any `some c` encode alike and decode to
+    `some 0`); two members of the domain have the same octets iff they are the same header after
+    that normalisation -/
+theorem C17_hdr_octets_injective (h k : PrimaryHeader) (wh : WFHdr h) (wk : WFHdr k) :
+    Spec.hdrOctets h = Spec.hdrOctets k ↔ normHdr h = normHdr k := by
+  refine ⟨fun he => ?_, fun he => ?_⟩
+  · have r1 := C17_hdr_roundtrip h wh []
+    have r2 := C17_hdr_roundtrip k wk []
+    rw [he, r2] at r1
+    exact (Except.ok.inj r1).symm
+  · rw [← hdrOctets_norm h, he, hdrOctets_norm k]
+
+/-- the same for `pack()` itself -/
+theorem C17_hdr_pack_injective (h k : PrimaryHeader) (wh : WFHdr h) (wk : WFHdr k) :
+    h.pack = k.pack ↔ normHdr h = normHdr k := by
+  rw [(C17_hdr_exact h wh).1, (C17_hdr_exact k wk).1, ← C17_hdr_octets_injective h k wh wk]
+  exact ⟨fun he => Except.ok.inj he, fun he => by rw [he]⟩
+
+/-- without normalisation: headers that carry a VCF count (length > 0) are equal iff they pack to
+    the same octets -/
+theorem C17_hdr_pack_injective_vcf (h k : PrimaryHeader) (wh : WFHdr h) (wk : WFHdr k)
+    (nh : h.vcfLen ≠ 0) (nk : k.vcfLen ≠ 0) : h.pack = k.pack ↔ h = k := by
+  have eh : normHdr h = h := by unfold normHdr; simp [nh]
+  have ek : normHdr k = k := by unfold normHdr; simp [nk]
+  rw [C17_hdr_pack_injective h k wh wk, eh, ek]
+
+-- non-vacuity of the injectivity statements: distinct members of the domain, distinct octets;
+-- and the normalisation is needed: two distinct headers of the domain with the same octets
+example : WFTHdr ⟨1, false, 2, 3⟩ ∧ WFTHdr ⟨1, true, 2, 3⟩ ∧
+    Spec.thdrOctets ⟨1, false, 2, 3⟩ ≠ Spec.thdrOctets ⟨1, true, 2, 3⟩ := by decide
+example : WFHdr exHdr ∧ WFHdr { exHdr with vcfCount := some 0x010204 } ∧ exHdr.vcfLen ≠ 0 ∧
+    Spec.hdrOctets exHdr ≠ Spec.hdrOctets { exHdr with vcfCount := some 0x010204 } := by decide
+example : WFHdr ⟨1, false, 2, 3, 9, false, false, false, 0, none⟩ ∧
+    WFHdr ⟨1, false, 2, 3, 9, false, false, false, 0, some 5⟩ ∧
+    Spec.hdrOctets ⟨1, false, 2, 3, 9, false, false, false, 0, none⟩ =
+      Spec.hdrOctets ⟨1, false, 2, 3, 9, false, false, false, 0, some 5⟩ := by decide
+
 end SpVerif.Props.C17
